@@ -153,7 +153,7 @@ class Known:
             if e.get("sub") not in (None, sub):
                 continue
             m = e["match"]
-            if all(v.sig.get(k) == val for k, val in m.items()):
+            if all((v.sig.get(k) in val) if isinstance(val, list) else (v.sig.get(k) == val) for k, val in m.items()):
                 return e
         return None
 
